@@ -370,3 +370,29 @@ func restartsOf(res *lab.Result) int {
 	}
 	return n - 1
 }
+
+
+// TestReplayLabC07 re-executes a replay written by the lab part (the window part has its own in p07).
+func TestReplayLabC07(t *testing.T) {
+	var doc replayDoc
+	if !loadReplay(t, &doc) {
+		return
+	}
+	if doc.Replay.Case == nil {
+		t.Skip("not a lab replay")
+	}
+	for i := 0; i < 5; i++ {
+		var c lab.Case
+		cloneCase(doc.Replay.Case, &c)
+		res := lab.RunCaseOpts(&c, lab.ReplayPick(c.Choices), lab.RunOpts{Ready: func(w *lab.World, _ pipelineStatus) bool { return c07AllEmitted(w, &c) }})
+		m := lab.BuildModel(&c)
+		vs, _ := c07Oracle(&c, res, m, lab.NewHistory(&c, m, res.Events))
+		for _, v := range vs {
+			t.Errorf("run %d: %s", i, v.String())
+		}
+		if len(vs) > 0 {
+			t.Logf("history:\n%s", lab.Format(res.Events, 120))
+			return
+		}
+	}
+}
